@@ -98,7 +98,7 @@ def random_batch(rng, quick):
                             n_inner=rng.choice([1, 2, 4, 3]), n_override=rng.choice([None, None, 2]),
                             model_seed=rng.randrange(10 ** 6), rows=rows, seed=rng.randrange(2 ** 31),
                             names=rng.choice(["idx", "str", "mixed"]), nlab=rng.choice([1, 1, 2, 3]), loss_object=rng.random() < 0.25,
-                            imputer_kind=rng.choice([None, None, "product"]), foreign=rng.random() < 0.3)
+                            imputer_kind=rng.choice([None, None, "product"]), foreign=rng.random() < 0.3, hidden=rng.random() < 0.4)
 
 
 def random_interval(rng, quick, calls=None):
@@ -110,7 +110,7 @@ def random_interval(rng, quick, calls=None):
                             interval=rng.choice([1, 2, 3, 4]), storage_len=rng.choice([1, 2, 3, 4]),
                             model_seed=rng.randrange(10 ** 6), rows=rows, calls=cl, seed=rng.randrange(2 ** 31),
                             names=rng.choice(["idx", "str"]), nlab=rng.choice([1, 1, 2, 3]), loss_object=rng.random() < 0.25,
-                            imputer_kind=rng.choice([None, None, "product"]), foreign=rng.random() < 0.3)
+                            imputer_kind=rng.choice([None, None, "product"]), foreign=rng.random() < 0.3, hidden=rng.random() < 0.4)
 
 
 def float_checks(ctx, traces, scenarios, wanted):
